@@ -15,6 +15,7 @@ type c07Case struct {
 	Measure string   `json:"measure"`
 	Query   string   `json:"query"`
 	Targets []string `json:"targets"`
+	WrapT   int      `json:"wraptargets,omitempty"` // target FASTA written with sequence lines of this width
 }
 
 // backbones: 12 columns containing all four bases in both rows, one transition and one transversion
@@ -24,7 +25,7 @@ const c07BackT = "ACGTACGTGCGC" // A->G transition at column 9, A->C transversio
 func c07Run(c c07Case) (Obs, map[string]string) {
 	recs := []string{}
 	for i, t := range c.Targets {
-		recs = append(recs, fmt.Sprintf("t%d", i), t)
+		recs = append(recs, fmt.Sprintf("t%d", i), wrapSeq(t, c.WrapT))
 	}
 	call := Call{Cmd: "closest", Query: fastaOf("q", c.Query), Target: fastaOf(recs...), Measure: c.Measure, N: len(c.Targets), Table: true, Threads: 2}
 	o := call.Canon()
@@ -54,7 +55,7 @@ func c07Check(c c07Case, res *engine.JobResult, attribute bool) {
 	if m == nil {
 		if attribute && len(c.Targets) > 1 {
 			for _, t := range c.Targets {
-				c07Check(c07Case{c.Measure, c.Query, []string{t}}, res, false)
+				c07Check(c07Case{Measure: c.Measure, Query: c.Query, Targets: []string{t}, WrapT: c.WrapT}, res, false)
 			}
 			return
 		}
@@ -69,7 +70,7 @@ func c07Check(c c07Case, res *engine.JobResult, attribute bool) {
 			continue
 		}
 		res.Nontrivial++
-		single := c07Case{c.Measure, c.Query, []string{t}}
+		single := c07Case{Measure: c.Measure, Query: c.Query, Targets: []string{t}, WrapT: c.WrapT}
 		if !present {
 			res.Violate("distance:row-missing", fmt.Sprintf("%s distance of %q vs %q is defined (%.9f) but the pair is missing from -n %d --table", c.Measure, c.Query, t, want, len(c.Targets)), c)
 			continue
@@ -162,11 +163,14 @@ func init() {
 							ts[i], ts[j] = ts[j], ts[i]
 						}
 					}
-					c := c07Case{p[1], q, ts}
+					c := c07Case{Measure: p[1], Query: q, Targets: ts}
+					if r%5 == 2 {
+						c.WrapT = 3 + r%4 // the same distances for a target file with wrapped sequence lines
+					}
 					c07Check(c, res, true)
 					res.States += len(ts) + 1
 					if r == 34 {
-						res.Sample(c07Case{p[1], q, ts[:3]})
+						res.Sample(c07Case{Measure: p[1], Query: q, Targets: ts[:3]})
 					}
 				}
 			case "single":
@@ -178,12 +182,12 @@ func init() {
 					if i%7 == 0 {
 						t = strings.Repeat("A", 6) + strings.Repeat("C", 3) + "GGT" + y // other base frequencies
 					}
-					c07Check(c07Case{p[1], q, []string{t}}, res, false)
+					c07Check(c07Case{Measure: p[1], Query: q, Targets: []string{t}}, res, false)
 					res.States++
 				}
 			case "bare":
 				for _, x := range pairs {
-					c07Check(c07Case{p[1], x, pairs}, res, true)
+					c07Check(c07Case{Measure: p[1], Query: x, Targets: pairs}, res, true)
 					res.States += len(pairs) + 1
 				}
 				var singles []string
@@ -191,7 +195,7 @@ func init() {
 					singles = append(singles, A[i:i+1])
 				}
 				for _, x := range singles {
-					c07Check(c07Case{p[1], x, singles}, res, true)
+					c07Check(c07Case{Measure: p[1], Query: x, Targets: singles}, res, true)
 					res.States += 18
 				}
 			case "cli":
@@ -210,7 +214,7 @@ func init() {
 						res.Evals += len(ts)
 						res.Validated += len(ts)
 						if ob.String() != oc.String() {
-							res.Violate("distance:binary-differs", fmt.Sprintf("real binary and instrumented build disagree for measure %s query %s: %s", m, q, firstDiff(ob.Out, oc.Out)), c07Case{m, q, ts})
+							res.Violate("distance:binary-differs", fmt.Sprintf("real binary and instrumented build disagree for measure %s query %s: %s", m, q, firstDiff(ob.Out, oc.Out)), c07Case{Measure: m, Query: q, Targets: ts})
 						}
 					}
 				}
